@@ -84,9 +84,9 @@ Fixpoint nexp (c : ctx) (e : exp) : exp :=
   | _ => e
   end.
 Definition nexps := map (nexp Std).
-(* a condition (if / elseif / while / until) loses one layer of parentheses whatever is inside
+(* a condition (if / elseif / while / until) loses every layer of parentheses around it, whatever is inside
    (stmt.rs remove_condition_parentheses: only its truth value is used), then the ordinary rule applies *)
-Definition ncond (e : exp) : exp := match e with EParen x => nexp Std x | _ => nexp Std e end.
+Fixpoint ncond (e : exp) : exp := match e with EParen x => ncond x | _ => nexp Std e end.
 Fixpoint nstmt (s : stmt) : stmt :=
   match s with
   | SLocal ns es => SLocal ns (nexps es)
@@ -172,6 +172,41 @@ with smap_i (i : item) : item := match i with Item l b s t => Item l b (smap_s s
 with smap_b (b : blk) : blk := match b with Blk is tl => Blk (map smap_i is) tl end.
 End SMap.
 Definition cprog (m : cmode) : blk -> blk := smap_b (cexp m false).
+
+(* a predicate on every expression of a program *)
+Section SAllDef.
+Variable P : exp -> bool.
+Definition pall (l : list exp) : bool := forallb P l.
+Fixpoint sall_s (s : stmt) : bool :=
+  match s with
+  | SLocal _ es | SReturn es => pall es
+  | SAssign vs es => pall vs && pall es
+  | SCall e => P e
+  | SDo b => sall_b b
+  | SWhile e b | SRepeat b e => P e && sall_b b
+  | SIf e t r => P e && sall_b t && sall_r r
+  | SNumFor _ a b st body => P a && P b && match st with Some x => P x | None => true end && sall_b body
+  | SGenFor _ es body => pall es && sall_b body
+  | SFunction _ _ _ _ body | SLocalFunction _ _ _ body => sall_b body
+  | SBreak => true
+  end
+with sall_r (r : els) : bool := match r with NoElse => true | Else b => sall_b b | ElseIf e t r2 => P e && sall_b t && sall_r r2 end
+with sall_i (i : item) : bool := match i with Item _ _ s _ => sall_s s end
+with sall_b (b : blk) : bool := match b with Blk is _ => forallb sall_i is end.
+End SAllDef.
+(* the premise of the idempotence theorem (Fmt0Idem.v, C06): no unary minus in front of something that - through parentheses -
+   starts with a unary minus, in any expression *)
+(* guard-free, on every expression inside *)
+Fixpoint gfe (e : exp) : bool :=
+  match e with
+  | EUn u x => (match u with Neg => negb (sn (shape x)) | _ => true end) && gfe x
+  | EParen x | FPos x | FNamed _ x | FLine _ x _ | EField x _ => gfe x
+  | EBin _ l r | FKey l r | EIndex l r => gfe l && gfe r
+  | ECall f _ args | EMethod f _ _ args => gfe f && forallb gfe args
+  | ETable fs | ETableML fs => forallb gfe fs
+  | _ => true
+  end.
+Definition guard_free (p : blk) : bool := sall_b gfe p.
 
 (* ---------------- print: the tokens the formatter writes ---------------- *)
 (* collapse_simple_statement (context.rs should_collapse_simple_functions / should_collapse_simple_conditionals) *)
